@@ -88,8 +88,21 @@ pub fn opts_of(bits: u8, key: &stun_rs::HMACKey) -> DecOpts {
 /// The option relations on one input; shared with the fuzz target.
 pub fn check_relations(bytes: &[u8], st: &mut Stats) -> Result<(), String> {
     let key = conv::lib_key(&KeySpec::ShortTerm("wild-pass".into())).map_err(|e| format!("HARNESS-{}", e))?;
-    let res: Vec<Result<(StunMessage, usize), String>> = (0u8..16).map(|b| lib_decode(bytes, &opts_of(b, &key))).collect();
-    let noctx = lib_decode(bytes, &DecOpts::plain());
+    // a panic is C03's business: the option relations are asserted between decodes that returned
+    let mut panicked = false;
+    let mut dec = |o: &DecOpts| match guard(|| lib_decode(bytes, o)) {
+        Guard::Ok(r) => r,
+        _ => {
+            panicked = true;
+            Err("panic".to_string())
+        }
+    };
+    let res: Vec<Result<(StunMessage, usize), String>> = (0u8..16).map(|b| dec(&opts_of(b, &key))).collect();
+    let noctx = dec(&DecOpts::plain());
+    if panicked {
+        st.class("input:decoder-panicked(not-a-C18-matter)");
+        return Ok(());
+    }
     let wire = ref_decode(bytes);
     let name = |b: u8| opts_of(b, &key).name();
     let any_ok = res.iter().any(|r| r.is_ok());
